@@ -536,6 +536,12 @@ class Interp:
             bound = self.bind_args(cl, args, kwargs)
             fr = Frame(cl.module, bound, cl.frames, cl.qualname)
             return self.eval(cl.fn.body, fr)
+        # abstraction installed by the contract under verification (a ghost standing for a
+        # repository function whose own contract is proved elsewhere); recorded as an assumption
+        ov = getattr(self, "overrides", None)
+        if ov and cl.qualname in ov and self.depth > 0:
+            self.path.assumptions_used.add("abstracted_callee(%s)" % cl.qualname)
+            return ov[cl.qualname](*args, **kwargs)
         # contract?
         con = self.registry.get(cl.qualname) if self.registry is not None else None
         if con is not None and cl.qualname != self.top and cl.qualname not in self.inline and self.depth > 0:
